@@ -24,6 +24,7 @@ def body_deductive(rep):
 
 PARSE_BODY = ['visitPredicateexpression', 'visitSimplepredicate', 'visitTermpredicate']
 PARSE_TERM = ['visitTerm', 'visitAtom', 'visitFunctor', 'visitTermlist']
+PARSE_CLAUSE = ['visitClause']
 
 
 def parse_deductive(rep, funs=None):
@@ -31,7 +32,7 @@ def parse_deductive(rep, funs=None):
     Bodies (C06, C05, C12): ',' conjunction, '->' if-then, ';' disjunction, '\\+' negation, parentheses transparent, a goal is
     never the internal $CUTIF marker.  Terms (C16, C01): every literal form denotes its term, `_` are numbered left to right."""
     from ..pyvc.theory_visitor import ParseTheory
-    fw.deductive(rep, ['yp_prolog_visitor.YPPrologVisitor.' + f for f in (funs or PARSE_BODY + PARSE_TERM)],
+    fw.deductive(rep, ['yp_prolog_visitor.YPPrologVisitor.' + f for f in (funs or PARSE_BODY + PARSE_TERM + PARSE_CLAUSE)],
                  ['visitor_parse'], ['control.smt2', 'parse.smt2'], theory=ParseTheory)
     fw.add_smt(rep, lemmas.prove_parse_lemmas(), 'spec.parse-lemmas')
     rep.lemmas.append('L-TCNT-NONNEG, L-PECNT-NONNEG (induction), L-WF-PAIRS (unfolding): lemmas of spec/parse.smt2 (SMT)')
